@@ -14,6 +14,14 @@ Record scratch := { sc_headers : option dict; sc_params : option dict; sc_cookie
 
 Definition get_or_empty (o : option dict) : dict := match o with Some d => d | None => [] end.
 
+(* core/auth/base.py set_header: remove every entry whose name differs from [k] only in case, then d[k] = v.
+   (str.lower is modelled by ASCII lower-casing: header names are ASCII — httpx rejects others.) *)
+Definition lower_str (s : str) : str := map lower_ascii s.
+Definition same_ci (a b : str) : bool := str_eqb (lower_str a) (lower_str b).
+Definition hset (d : dict) (k v : str) : dict :=
+  aset (filter (fun kv => str_eqb (fst kv) k || negb (same_ci (fst kv) k)) d) k v.
+Definition hupdate (d e : dict) : dict := fold_left (fun acc kv => hset acc (fst kv) (snd kv)) e d.
+
 Inductive plugin :=
 | Bearer (tok : str)
 | HeadersP (hs : dict)
@@ -29,14 +37,14 @@ Arguments Ok {A} a. Arguments Err {A}.
 Fixpoint auth_step (p : plugin) (a : scratch) : plugin * result scratch :=
   match p with
   | Bearer tok =>
-      (p, Ok {| sc_headers := Some (aset (get_or_empty (sc_headers a)) s_Authorization (s_Bearer_sp ++ tok));
+      (p, Ok {| sc_headers := Some (hset (get_or_empty (sc_headers a)) s_Authorization (s_Bearer_sp ++ tok));
                 sc_params := sc_params a; sc_cookies := sc_cookies a |})
   | HeadersP hs =>
-      (p, Ok {| sc_headers := Some (aupdate (get_or_empty (sc_headers a)) hs);
+      (p, Ok {| sc_headers := Some (hupdate (get_or_empty (sc_headers a)) hs);
                 sc_params := sc_params a; sc_cookies := sc_cookies a |})
   | ApiKey key loc name =>
       if str_eqb loc s_header then
-        (p, Ok {| sc_headers := Some (aset (get_or_empty (sc_headers a)) name key);
+        (p, Ok {| sc_headers := Some (hset (get_or_empty (sc_headers a)) name key);
                   sc_params := sc_params a; sc_cookies := sc_cookies a |})
       else if str_eqb loc s_query then
         (p, Ok {| sc_headers := sc_headers a;
@@ -57,7 +65,7 @@ Fixpoint auth_step (p : plugin) (a : scratch) : plugin * result scratch :=
             end
         end in
       (OAuth2 tok' refresh,
-       Ok {| sc_headers := Some (aset (get_or_empty (sc_headers a)) s_Authorization (s_Bearer_sp ++ tok'));
+       Ok {| sc_headers := Some (hset (get_or_empty (sc_headers a)) s_Authorization (s_Bearer_sp ++ tok'));
              sc_params := sc_params a; sc_cookies := sc_cookies a |})
   | Composite ps =>
       let fix go (ps : list plugin) (a : scratch) : list plugin * result scratch :=
@@ -85,8 +93,8 @@ Definition truthy_dict (o : option dict) : dict :=
 
 Definition prepare_headers (t : transport) (kw : kwargs)
   : transport * result (dict * option dict * option dict) :=
-  let p0 := aupdate [] (truthy_dict (t_defaults t)) in
-  let p1 := match k_headers kw with Some h => aupdate p0 h | None => p0 end in
+  let p0 := hupdate [] (truthy_dict (t_defaults t)) in
+  let p1 := match k_headers kw with Some h => hupdate p0 h | None => p0 end in
   (* temp_request_args_for_auth = {"headers": prepared.copy()} plus the caller's "params"/"cookies"
      when present; after the plugin ran, "params"/"cookies" of its result are written back to kwargs *)
   let tmp := {| sc_headers := Some p1; sc_params := k_params kw; sc_cookies := k_cookies kw |} in
@@ -101,7 +109,7 @@ Definition prepare_headers (t : transport) (kw : kwargs)
       end
   | None =>
       match t_bearer t with
-      | Some tok => (t, Ok (aset p1 s_Authorization (s_Bearer_sp ++ tok), k_params kw, k_cookies kw))
+      | Some tok => (t, Ok (hset p1 s_Authorization (s_Bearer_sp ++ tok), k_params kw, k_cookies kw))
       | None => (t, Ok (p1, k_params kw, k_cookies kw))
       end
   end.
@@ -121,7 +129,6 @@ Fixpoint session (t : transport) (kws : list kwargs) : list (result wire) :=
   end.
 
 (* what the server sees: httpx lower-cases header names; same-name fields are all sent, in order *)
-Definition lower_str (s : str) : str := map lower_ascii s.
 Definition on_wire_headers (h : dict) : dict := map (fun kv => (lower_str (fst kv), snd kv)) h.
 
 (* ------------------------------------------------------------------------------------- *)
@@ -210,29 +217,3 @@ Definition meets (w : wire) (e : expect) (kw : kwargs) : Prop :=
   (forall n, wire_values n (w_headers w) = expect_values n (e_headers e))
   /\ w_params w = e_params e /\ w_cookies w = e_cookies e /\ w_body w = k_body kw.
 
-(* ------------------------------------------------------------------------------------- *)
-(* Guards of the partial theorem (executable).                                            *)
-
-(* F17b: two header names that differ only in case *)
-Fixpoint plugin_names (p : plugin) : list str :=
-  match p with
-  | Bearer _ => [s_Authorization]
-  | HeadersP hs => map fst hs
-  | ApiKey _ loc name => if str_eqb loc s_header then [name] else []
-  | OAuth2 _ _ => [s_Authorization]
-  | Composite ps => flat_map plugin_names ps
-  end.
-
-Definition all_names (t : transport) (kw : kwargs) : list str :=
-  map fst (truthy_dict (t_defaults t)) ++ map fst (truthy_dict (k_headers kw))
-  ++ match t_auth t with
-     | Some a => plugin_names a
-     | None => match t_bearer t with Some _ => [s_Authorization] | None => [] end
-     end.
-
-(* k1, k2 equal modulo case -> equal *)
-Definition case_ok2 (a b : str) : bool := negb (str_eqb (lower_str a) (lower_str b)) || str_eqb a b.
-Definition case_consistent (l : list str) : bool :=
-  forallb (fun a => forallb (case_ok2 a) l) l.
-
-Definition guard_F17b (t : transport) (kw : kwargs) : bool := case_consistent (all_names t kw).
